@@ -359,7 +359,9 @@ def r5(ctx):
             def outlives(e):
                 if isinstance(e, ast.Name):
                     # loop-carried local: assigned outside the loop body as well
-                    return any(not any(a is scope for a in f.module.ancestors(s.ast)) for s in stores_to_name(f, e.id)) or scope is f.node
+                    if scope is f.node:
+                        return False        # a local of a function that serves one request per call dies with it
+                    return any(not any(a is scope for a in f.module.ancestors(s.ast)) for s in stores_to_name(f, e.id))
                 if isinstance(e, ast.Attribute):
                     return isinstance(e.value, ast.Name) and (e.value.id in f.params or e.value.id == "self") and e.value.id != R
                 return False
